@@ -1,3 +1,852 @@
 package main
 
-func eqhashMain(args []string) {}
+// C18: table conformance of ==, !=, <, <=, >, >= and dictionary keys against spec/lang/EqHash.tla.
+//
+// The TLC table (EqHashMC) holds groups of representations (reps) of one static type, the predicted
+// equality / order of every pair of a group, the predicted identity of every pair of hashable reps as
+// dictionary keys, and dictionary histories over pools of keys.  The driver renders every rep as a
+// Cadence expression, evaluates the operations in scripts on both engines and compares.  The laws
+// (reflexive, symmetric, transitive, total order consistent with ==, != is the negation, <= is < or ==)
+// are additionally checked on the observed tables themselves.
+
+import (
+	"encoding/json"
+	"fmt"
+	"strconv"
+	"strings"
+	"sync/atomic"
+
+	cdcruntime "github.com/onflow/cadence/runtime"
+
+	"verifharness/host"
+	"verifharness/util"
+)
+
+type tterm struct {
+	C    string   `json:"c"`
+	N    string   `json:"n"`
+	Ms   []string `json:"ms"`
+	Au   string   `json:"au"`
+	Es   []string `json:"es"`
+	Args []tterm  `json:"args"`
+}
+
+type rep struct {
+	K    string   `json:"k"`
+	Ty   string   `json:"ty"`
+	Form string   `json:"form"`
+	Src  []string `json:"src"`
+	V    int      `json:"v"`
+	Name string   `json:"name"`
+	T    tterm    `json:"t"`
+	Xs   []rep    `json:"xs"`
+}
+
+type eGroup struct {
+	G          int    `json:"g"`
+	Ty         string `json:"ty"`
+	Comparable bool   `json:"comparable"`
+	Hashable   bool   `json:"hashable"`
+	Reps       []rep  `json:"reps"`
+	eq         [][]bool
+	cmp        [][]int
+}
+
+type eFail struct {
+	Check  string `json:"check"` // eq | order | key | hist | law
+	Engine string `json:"engine"`
+	Ty     string `json:"ty"`
+	Kind   string `json:"kind"`
+	Op     string `json:"op"`
+	A      string `json:"a"`
+	B      string `json:"b,omitempty"`
+	FormA  string `json:"form_a,omitempty"`
+	FormB  string `json:"form_b,omitempty"`
+	Want   string `json:"want"`
+	Got    string `json:"got"`
+	Dev    string `json:"dev"`
+	Harn   bool   `json:"harness,omitempty"`
+}
+
+const eqDecls = `
+access(all) struct interface I1 {}
+access(all) struct interface I2 {}
+access(all) struct interface I3 {}
+access(all) resource interface R1 {}
+access(all) resource interface R2 {}
+access(all) entitlement X
+access(all) entitlement Y
+access(all) entitlement Z
+access(all) enum E: UInt8 { access(all) case c0; access(all) case c1 }
+access(all) enum F: UInt8 { access(all) case c0; access(all) case c1 }
+access(all) fun noneString(): String? { return nil }
+access(all) fun optString(_ x: String?): String? { return x }
+access(all) fun int(_ x: Int): Int { return x }
+access(all) fun i16(_ x: Int16): Int16 { return x }
+access(all) fun qual(_ name: String): String {
+    let id = Type<E>().identifier
+    return id.slice(from: 0, upTo: id.length - 1).concat(name)
+}
+`
+
+var (
+	eOut    *util.Out
+	eEvals  int64
+	eNFails int64
+)
+
+func efail(f eFail) {
+	if atomic.AddInt64(&eNFails, 1) > 300 {
+		return
+	}
+	eOut.Write(f)
+}
+
+// ------------------------------------------------------------------ rendering
+
+func symsToString(src []string) string { return conc(strings.Join(src, "")) }
+
+func renderType(t tterm) string {
+	switch t.C {
+	case "prim":
+		return t.N
+	case "inter":
+		return "{" + strings.Join(t.Ms, ", ") + "}"
+	case "rinter":
+		return "@{" + strings.Join(t.Ms, ", ") + "}"
+	case "ref":
+		inner := renderType(t.Args[0])
+		switch t.Au {
+		case "none":
+			return "&" + inner
+		case "conj":
+			return "auth(" + strings.Join(t.Es, ", ") + ") &" + inner
+		case "disj":
+			return "auth(" + strings.Join(t.Es, " | ") + ") &" + inner
+		}
+	case "opt":
+		inner := renderType(t.Args[0])
+		if t.Args[0].C == "ref" {
+			return "(" + inner + ")?"
+		}
+		return inner + "?"
+	case "arr":
+		return "[" + renderType(t.Args[0]) + "]"
+	case "cap":
+		return "Capability<" + renderType(t.Args[0]) + ">"
+	case "dict":
+		return "{" + renderType(t.Args[0]) + ": " + renderType(t.Args[1]) + "}"
+	}
+	util.Die("cannot render type term %+v", t)
+	return ""
+}
+
+func quals(names []string) string {
+	parts := make([]string, len(names))
+	for i, n := range names {
+		parts[i] = fmt.Sprintf("qual(%q)", n)
+	}
+	return "[" + strings.Join(parts, ", ") + "]"
+}
+
+// renderTypeDynamic builds the type value with the run-time type constructors.
+func renderTypeDynamic(t tterm) string {
+	switch t.C {
+	case "prim":
+		return "Type<" + t.N + ">()"
+	case "inter", "rinter":
+		return "IntersectionType(types: " + quals(t.Ms) + ")!"
+	case "ref":
+		if t.Au == "disj" {
+			util.Die("no run-time constructor for a disjunctive authorization")
+		}
+		return "ReferenceType(entitlements: " + quals(t.Es) + ", type: " + renderTypeDynamic(t.Args[0]) + ")!"
+	case "opt":
+		return "OptionalType(" + renderTypeDynamic(t.Args[0]) + ")"
+	case "arr":
+		return "VariableSizedArrayType(" + renderTypeDynamic(t.Args[0]) + ")"
+	case "cap":
+		return "CapabilityType(" + renderTypeDynamic(t.Args[0]) + ")!"
+	case "dict":
+		return "DictionaryType(key: " + renderTypeDynamic(t.Args[0]) + ", value: " + renderTypeDynamic(t.Args[1]) + ")!"
+	}
+	util.Die("cannot render type term %+v", t)
+	return ""
+}
+
+func fixLit(v int, long bool) string {
+	sign := ""
+	if v < 0 {
+		sign, v = "-", -v
+	}
+	frac := fmt.Sprintf("%02d", v%100)
+	if long {
+		frac += "000000"
+	} else if frac[1] == '0' {
+		frac = frac[:1]
+	}
+	return fmt.Sprintf("%s%d.%s", sign, v/100, frac)
+}
+
+// render gives a Cadence expression for the rep; typed = the context already expects r.Ty.
+func render(r rep, typed bool) string {
+	cast := func(e string) string {
+		if typed {
+			return e
+		}
+		return "(" + e + " as " + r.Ty + ")"
+	}
+	switch r.K {
+	case "String":
+		s := symsToString(r.Src)
+		switch r.Form {
+		case "lit":
+			return litEsc(s)
+		case "utf8":
+			bs := make([]string, len(s))
+			for i := 0; i < len(s); i++ {
+				bs[i] = strconv.Itoa(int(s[i]))
+			}
+			return "String.fromUTF8([" + strings.Join(bs, ", ") + "])!"
+		case "concat":
+			rs := []rune(s)
+			return litEsc(string(rs[:1])) + ".concat(" + litEsc(string(rs[1:])) + ")"
+		}
+	case "Character":
+		s := symsToString(r.Src)
+		switch r.Form {
+		case "lit":
+			return cast(litEsc(s))
+		case "index":
+			return litEsc("b"+s) + "[1]"
+		}
+	case "Bool":
+		switch r.Form {
+		case "lit":
+			return strconv.FormatBool(r.V == 1)
+		case "not":
+			return "!" + strconv.FormatBool(r.V != 1)
+		case "cmp":
+			if r.V == 1 {
+				return "(1 == 1)"
+			}
+			return "(1 == 2)"
+		}
+	case "Num":
+		switch r.Form {
+		case "dec":
+			return cast(strconv.Itoa(r.V))
+		case "hex":
+			if r.V < 0 {
+				return cast(fmt.Sprintf("-0x%x", -r.V))
+			}
+			return cast(fmt.Sprintf("0x%x", r.V))
+		case "conv":
+			if r.Ty == "Int" {
+				return fmt.Sprintf("Int(i16(%d))", r.V)
+			}
+			return fmt.Sprintf("%s(int(%d))", r.Ty, r.V)
+		}
+	case "Fix":
+		switch r.Form {
+		case "short":
+			return cast(fixLit(r.V, false))
+		case "long":
+			return cast(fixLit(r.V, true))
+		case "conv":
+			return fmt.Sprintf("%s(int(%d))", r.Ty, r.V/100)
+		}
+	case "Address":
+		switch r.Form {
+		case "short":
+			return cast(fmt.Sprintf("0x%x", r.V))
+		case "padded":
+			return cast(fmt.Sprintf("0x%016x", r.V))
+		case "conv":
+			return fmt.Sprintf("Address(0x%x)", r.V)
+		}
+	case "Path":
+		parts := strings.SplitN(r.Name, "/", 2)
+		switch r.Form {
+		case "lit":
+			return cast("/" + parts[0] + "/" + parts[1])
+		case "ctor":
+			ctor := map[string]string{"public": "PublicPath", "storage": "StoragePath"}[parts[0]]
+			return cast(fmt.Sprintf("%s(identifier: %q)!", ctor, parts[1]))
+		}
+	case "Enum":
+		switch r.Form {
+		case "case":
+			return fmt.Sprintf("%s.c%d", r.Ty, r.V)
+		case "raw":
+			return fmt.Sprintf("%s(rawValue: %d)!", r.Ty, r.V)
+		}
+	case "Type":
+		switch r.Form {
+		case "static":
+			return "Type<" + renderType(r.T) + ">()"
+		case "dynamic":
+			return renderTypeDynamic(r.T)
+		}
+	case "Nil":
+		switch r.Form {
+		case "nil":
+			return cast("nil")
+		case "inner":
+			if r.Ty != "String??" {
+				util.Die("inner nil is only rendered for String??")
+			}
+			return cast("noneString()")
+		}
+	case "Some":
+		x := r.Xs[0]
+		if x.K == "Some" || x.K == "Nil" {
+			if x.Ty != "String?" {
+				util.Die("nested optional is only rendered for String?")
+			}
+			return cast("optString(" + render(x, true) + ")")
+		}
+		return cast(render(x, true))
+	case "Arr":
+		parts := make([]string, len(r.Xs))
+		for i, x := range r.Xs {
+			parts[i] = render(x, true)
+		}
+		return cast("[" + strings.Join(parts, ", ") + "]")
+	case "Dict":
+		var parts []string
+		for i := 0; i+1 < len(r.Xs); i += 2 {
+			parts = append(parts, render(r.Xs[i], true)+": "+render(r.Xs[i+1], true))
+		}
+		return cast("{" + strings.Join(parts, ", ") + "}")
+	}
+	util.Die("cannot render rep %+v", r)
+	return ""
+}
+
+// describe is the readable form used in reports
+func describe(r rep) string {
+	switch r.K {
+	case "String", "Character":
+		return fmt.Sprintf("%s %s[%s] (%s)", r.K, r.Form+" ", strings.Join(r.Src, ""), render(r, true))
+	}
+	return render(r, false)
+}
+
+func kindOf(g *eGroup) string {
+	k := g.Reps[0].K
+	if k == "Nil" || k == "Some" {
+		return "Optional"
+	}
+	return k
+}
+
+// ------------------------------------------------------------------ script execution
+
+func runScript(src string, vm bool) host.Result {
+	w := host.NewWorldWithConfig(cdcruntime.Config{})
+	res := w.Script(src, vm)
+	if strings.Contains(res.Class, "CheckerError") || strings.Contains(res.Class, "ParserError") || strings.Contains(res.Class, "ParsingCheckingError") ||
+		strings.Contains(res.Class, "SyntaxError") {
+		util.Die("generated script rejected (%s): %v\n%s", res.Class, res.Err, clip(src, 6000))
+	}
+	return res
+}
+
+func engineName(vm bool) string {
+	if vm {
+		return "vm"
+	}
+	return "interp"
+}
+
+func boolsOf(v any) []bool {
+	a := v.([]any)
+	out := make([]bool, len(a))
+	for i, e := range a {
+		out[i] = e.(bool)
+	}
+	return out
+}
+
+func listOf(g *eGroup) string {
+	parts := make([]string, len(g.Reps))
+	for i, r := range g.Reps {
+		parts[i] = render(r, true)
+	}
+	return "[" + strings.Join(parts, ",\n        ") + "]"
+}
+
+func checkGroup(g *eGroup, vm bool) {
+	engine := engineName(vm)
+	n := len(g.Reps)
+	kind := kindOf(g)
+	src := eqDecls + fmt.Sprintf(`
+access(all) fun main(): [[Bool]] {
+    let xs: [%s] = %s
+    let eq: [Bool] = []
+    let ne: [Bool] = []
+    for a in xs { for b in xs { eq.append(a == b); ne.append(a != b) } }
+    return [eq, ne]
+}`, g.Ty, listOf(g))
+	res := runScript(src, vm)
+	if res.Class != "ok" {
+		efail(eFail{Check: "eq", Engine: engine, Ty: g.Ty, Kind: kind, Op: "==", A: "(whole group)", Want: "comparisons succeed", Got: res.Class + ": " + clip(fmt.Sprint(res.Err), 300), Dev: "equality-fails"})
+		return
+	}
+	out := toGo(res.Value).([]any)
+	eq, ne := boolsOf(out[0]), boolsOf(out[1])
+	atomic.AddInt64(&eEvals, int64(2*n*n))
+	at := func(m []bool, i, j int) bool { return m[i*n+j] }
+	for i := 0; i < n; i++ {
+		for j := 0; j < n; j++ {
+			a, b := g.Reps[i], g.Reps[j]
+			if at(eq, i, j) != g.eq[i][j] {
+				efail(eFail{Check: "eq", Engine: engine, Ty: g.Ty, Kind: kind, Op: "==", A: describe(a), B: describe(b), FormA: a.Form, FormB: b.Form,
+					Want: strconv.FormatBool(g.eq[i][j]), Got: strconv.FormatBool(at(eq, i, j)), Dev: "wrong-equality"})
+			}
+			if at(ne, i, j) == at(eq, i, j) {
+				efail(eFail{Check: "law", Engine: engine, Ty: g.Ty, Kind: kind, Op: "!=", A: describe(a), B: describe(b), Want: "!= is the negation of ==", Got: "both " + strconv.FormatBool(at(eq, i, j)), Dev: "law-negation"})
+			}
+		}
+	}
+	// laws on the observed table itself
+	for i := 0; i < n; i++ {
+		if !at(eq, i, i) {
+			efail(eFail{Check: "law", Engine: engine, Ty: g.Ty, Kind: kind, Op: "==", A: describe(g.Reps[i]), Want: "a == a", Got: "false", Dev: "law-reflexivity"})
+		}
+		for j := 0; j < n; j++ {
+			if at(eq, i, j) != at(eq, j, i) {
+				efail(eFail{Check: "law", Engine: engine, Ty: g.Ty, Kind: kind, Op: "==", A: describe(g.Reps[i]), B: describe(g.Reps[j]), Want: "a == b iff b == a", Got: "differ", Dev: "law-symmetry"})
+			}
+			for k := 0; k < n; k++ {
+				if at(eq, i, j) && at(eq, j, k) && !at(eq, i, k) {
+					efail(eFail{Check: "law", Engine: engine, Ty: g.Ty, Kind: kind, Op: "==", A: describe(g.Reps[i]), B: describe(g.Reps[j]) + " ; " + describe(g.Reps[k]), Want: "transitive", Got: "a == b, b == c, a != c", Dev: "law-transitivity"})
+				}
+			}
+		}
+	}
+	if g.Comparable {
+		checkOrder(g, vm, eq)
+	}
+	if g.Hashable {
+		checkTypedKeys(g, vm)
+	}
+}
+
+func checkOrder(g *eGroup, vm bool, eq []bool) {
+	engine := engineName(vm)
+	n := len(g.Reps)
+	kind := kindOf(g)
+	src := eqDecls + fmt.Sprintf(`
+access(all) fun main(): [UInt8] {
+    let xs: [%s] = %s
+    let out: [UInt8] = []
+    for a in xs { for b in xs {
+        var m: UInt8 = 0
+        if a < b { m = m + 1 }
+        if a <= b { m = m + 2 }
+        if a > b { m = m + 4 }
+        if a >= b { m = m + 8 }
+        out.append(m)
+    } }
+    return out
+}`, g.Ty, listOf(g))
+	res := runScript(src, vm)
+	if res.Class != "ok" {
+		dev := "comparison-fails"
+		if host.IsInternal(res.Class) {
+			dev = "comparison-fails-internal-error"
+		}
+		efail(eFail{Check: "order", Engine: engine, Ty: g.Ty, Kind: kind, Op: "< <= > >=", A: "(whole group)", Want: "a total order (the checker accepts the comparison)",
+			Got: res.Class + ": " + clip(firstLine(fmt.Sprint(res.Err)), 300), Dev: dev})
+		return
+	}
+	m := anyInts(toGo(res.Value))
+	atomic.AddInt64(&eEvals, int64(4*n*n))
+	mask := func(c int) int {
+		switch {
+		case c == 0:
+			return 2 + 8
+		case c < 0:
+			return 1 + 2
+		}
+		return 4 + 8
+	}
+	lt := func(i, j int) bool { return m[i*n+j]&1 != 0 }
+	for i := 0; i < n; i++ {
+		for j := 0; j < n; j++ {
+			a, b := g.Reps[i], g.Reps[j]
+			if want := mask(g.cmp[i][j]); want != m[i*n+j] {
+				efail(eFail{Check: "order", Engine: engine, Ty: g.Ty, Kind: kind, Op: "< <= > >=", A: describe(a), B: describe(b), FormA: a.Form, FormB: b.Form,
+					Want: fmt.Sprintf("%04b", want), Got: fmt.Sprintf("%04b (bits from the low end: < <= > >=)", m[i*n+j]), Dev: "wrong-order"})
+			}
+			// laws on the observed table: exactly one of <, ==, >; <= is < or ==; > is the converse of <; >= is > or ==
+			e := eq[i*n+j]
+			x := m[i*n+j]
+			okLaw := (b2i(lt(i, j))+b2i(e)+b2i(lt(j, i)) == 1) && ((x&2 != 0) == (lt(i, j) || e)) && ((x&4 != 0) == lt(j, i)) && ((x&8 != 0) == (lt(j, i) || e))
+			if !okLaw {
+				efail(eFail{Check: "law", Engine: engine, Ty: g.Ty, Kind: kind, Op: "< <= > >=", A: describe(a), B: describe(b), Want: "total order consistent with ==", Got: fmt.Sprintf("%04b, == %v", x, e), Dev: "law-total-order"})
+			}
+			for k := 0; k < n; k++ {
+				if lt(i, j) && lt(j, k) && !lt(i, k) {
+					efail(eFail{Check: "law", Engine: engine, Ty: g.Ty, Kind: kind, Op: "<", A: describe(a), B: describe(b) + " ; " + describe(g.Reps[k]), Want: "transitive", Got: "a < b, b < c, not a < c", Dev: "law-transitivity"})
+				}
+			}
+		}
+	}
+}
+
+func b2i(b bool) int {
+	if b {
+		return 1
+	}
+	return 0
+}
+
+func firstLine(s string) string {
+	for _, ln := range strings.Split(s, "\n") {
+		if strings.HasPrefix(ln, "error:") {
+			return ln
+		}
+	}
+	return s
+}
+
+const keyLoop = `
+    let out: [UInt8] = []
+    for a in ks { for b in ks {
+        let d: {KEYTYPE: Int} = {}
+        d[a] = 1
+        let old = d.insert(key: b, 2)
+        var m: UInt8 = 0
+        if d.length == 1 { m = m + 1 }
+        if old == 1 { m = m + 2 }
+        if d[a] == 2 { m = m + 4 }
+        if d[b] == 2 { m = m + 8 }
+        if d.containsKey(a) && d.containsKey(b) && d.keys.length == d.length && d.values.length == d.length { m = m + 16 }
+        if d[a] == 1 { m = m + 32 }
+        out.append(m)
+    } }
+    return out
+}`
+
+func keyMask(same bool) int {
+	if same {
+		return 1 + 2 + 4 + 8 + 16
+	}
+	return 8 + 16 + 32
+}
+
+func explainKeyMask(m int) string {
+	return fmt.Sprintf("length=1:%v replaced-old-value:%v d[a]=2:%v d[b]=2:%v keys-consistent:%v d[a]=1:%v", m&1 != 0, m&2 != 0, m&4 != 0, m&8 != 0, m&16 != 0, m&32 != 0)
+}
+
+// typed dictionary {T: Int} over the reps of one hashable group
+func checkTypedKeys(g *eGroup, vm bool) {
+	engine := engineName(vm)
+	n := len(g.Reps)
+	src := eqDecls + fmt.Sprintf("\naccess(all) fun main(): [UInt8] {\n    let ks: [%s] = %s\n", g.Ty, listOf(g)) + strings.Replace(keyLoop, "KEYTYPE", g.Ty, 1)
+	res := runScript(src, vm)
+	if res.Class != "ok" {
+		efail(eFail{Check: "key", Engine: engine, Ty: g.Ty, Kind: kindOf(g), Op: "dictionary", A: "(whole group)", Want: "dictionary operations succeed", Got: res.Class + ": " + clip(firstLine(fmt.Sprint(res.Err)), 300), Dev: "dictionary-fails"})
+		return
+	}
+	m := anyInts(toGo(res.Value))
+	atomic.AddInt64(&eEvals, int64(6*n*n))
+	for i := 0; i < n; i++ {
+		for j := 0; j < n; j++ {
+			if want := keyMask(g.eq[i][j]); want != m[i*n+j] {
+				a, b := g.Reps[i], g.Reps[j]
+				efail(eFail{Check: "key", Engine: engine, Ty: "{" + g.Ty + ": Int}", Kind: kindOf(g), Op: "insert a; insert b", A: describe(a), B: describe(b), FormA: a.Form, FormB: b.Form,
+					Want: explainKeyMask(want), Got: explainKeyMask(m[i*n+j]), Dev: keyDev(g.eq[i][j])})
+			}
+		}
+	}
+}
+
+func keyDev(same bool) string {
+	if same {
+		return "equal-keys-two-entries"
+	}
+	return "different-keys-one-entry"
+}
+
+type hk struct {
+	g, i int
+	same []bool
+}
+
+func checkAllKeys(groups map[int]*eGroup, keys []hk, vm bool) {
+	engine := engineName(vm)
+	n := len(keys)
+	parts := make([]string, n)
+	for p, k := range keys {
+		parts[p] = render(groups[k.g].Reps[k.i-1], false)
+	}
+	src := eqDecls + "\naccess(all) fun main(): [UInt8] {\n    let ks: [HashableStruct] = [" + strings.Join(parts, ",\n        ") + "]\n" +
+		strings.Replace(keyLoop, "KEYTYPE", "HashableStruct", 1)
+	res := runScript(src, vm)
+	if res.Class != "ok" {
+		efail(eFail{Check: "key", Engine: engine, Ty: "{HashableStruct: Int}", Kind: "mixed", Op: "dictionary", A: "(all hashable reps)", Want: "dictionary operations succeed", Got: res.Class + ": " + clip(firstLine(fmt.Sprint(res.Err)), 300), Dev: "dictionary-fails"})
+		return
+	}
+	m := anyInts(toGo(res.Value))
+	if len(m) != n*n {
+		util.Die("key script returned %d results for %d keys", len(m), n)
+	}
+	atomic.AddInt64(&eEvals, int64(6*n*n))
+	for p := 0; p < n; p++ {
+		for q := 0; q < n; q++ {
+			if want := keyMask(keys[p].same[q]); want != m[p*n+q] {
+				a, b := groups[keys[p].g].Reps[keys[p].i-1], groups[keys[q].g].Reps[keys[q].i-1]
+				kind := a.K
+				if a.K != b.K || a.Ty != b.Ty {
+					kind = a.K + "/" + b.K
+				}
+				efail(eFail{Check: "key", Engine: engine, Ty: "{HashableStruct: Int}", Kind: kind, Op: "insert a; insert b", A: describe(a), B: describe(b), FormA: a.Form, FormB: b.Form,
+					Want: explainKeyMask(want), Got: explainKeyMask(m[p*n+q]), Dev: keyDev(keys[p].same[q])})
+			}
+		}
+	}
+}
+
+type hist struct {
+	Pool int   `json:"pool"`
+	Ks   []int `json:"ks"`
+	Keys []rep `json:"keys"`
+	Old  []int `json:"old"`
+	Len  int   `json:"len"`
+	Look []int `json:"look"`
+}
+
+func checkHistories(pool []rep, hs []hist, vm bool) {
+	engine := engineName(vm)
+	parts := make([]string, len(pool))
+	for i, r := range pool {
+		parts[i] = render(r, false)
+	}
+	var k1, k2, k3 []string
+	for _, h := range hs {
+		k1 = append(k1, strconv.Itoa(h.Ks[0]-1))
+		k2 = append(k2, strconv.Itoa(h.Ks[1]-1))
+		k3 = append(k3, strconv.Itoa(h.Ks[2]-1))
+	}
+	src := eqDecls + fmt.Sprintf(`
+access(all) fun main(): [[Int]] {
+    let ks: [HashableStruct] = [%s]
+    let k1: [Int] = [%s]
+    let k2: [Int] = [%s]
+    let k3: [Int] = [%s]
+    let out: [[Int]] = []
+    var h = 0
+    while h < k1.length {
+        let d: {HashableStruct: Int} = {}
+        let r: [Int] = []
+        r.append(d.insert(key: ks[k1[h]], 1) ?? -1)
+        r.append(d.insert(key: ks[k2[h]], 2) ?? -1)
+        r.append(d.remove(key: ks[k3[h]]) ?? -1)
+        r.append(d.length)
+        for k in ks { r.append(d[k] ?? -1) }
+        var viaKeys = 0
+        for k in d.keys { viaKeys = viaKeys + 1 }
+        r.append(viaKeys)
+        out.append(r)
+        h = h + 1
+    }
+    return out
+}`, strings.Join(parts, ",\n        "), strings.Join(k1, ", "), strings.Join(k2, ", "), strings.Join(k3, ", "))
+	res := runScript(src, vm)
+	if res.Class != "ok" {
+		efail(eFail{Check: "hist", Engine: engine, Ty: "{HashableStruct: Int}", Kind: "mixed", Op: "history", A: fmt.Sprintf("(pool %d)", hs[0].Pool), Want: "dictionary operations succeed", Got: res.Class + ": " + clip(firstLine(fmt.Sprint(res.Err)), 300), Dev: "dictionary-fails"})
+		return
+	}
+	out := toGo(res.Value).([]any)
+	for x, h := range hs {
+		got := anyInts(out[x])
+		want := append(append([]int{}, h.Old...), h.Len)
+		want = append(want, h.Look...)
+		want = append(want, h.Len)
+		atomic.AddInt64(&eEvals, int64(len(want)))
+		if fmt.Sprint(got) != fmt.Sprint(want) {
+			efail(eFail{Check: "hist", Engine: engine, Ty: "{HashableStruct: Int}", Kind: pool[h.Ks[0]-1].K, Op: "insert k1->1; insert k2->2; remove k3; length; lookups; keys",
+				A:    fmt.Sprintf("k1=%s k2=%s k3=%s", describe(pool[h.Ks[0]-1]), describe(pool[h.Ks[1]-1]), describe(pool[h.Ks[2]-1])),
+				Want: fmt.Sprint(want), Got: fmt.Sprint(got), Dev: "wrong-history"})
+		}
+	}
+}
+
+// ------------------------------------------------------------------ main
+
+func eqhashMain(args []string) {
+	if len(args) < 2 {
+		util.Die("usage: strings eqhash <out.ndjson> <table>... [workers=N]")
+	}
+	eOut = util.NewOut(args[0])
+	gOut = eOut
+	defer eOut.Close()
+	workers := 8
+	groups := map[int]*eGroup{}
+	type pairRow struct {
+		G   int    `json:"g"`
+		I   int    `json:"i"`
+		Eq  []bool `json:"eq"`
+		Cmp []int  `json:"cmp"`
+	}
+	var pairs []pairRow
+	keyRows := map[int]hk{}
+	var hists []hist
+	for _, a := range args[1:] {
+		if strings.HasPrefix(a, "workers=") {
+			workers, _ = strconv.Atoi(a[8:])
+			continue
+		}
+		err := readRows(a, func(raw []byte) {
+			var head struct {
+				Row      string              `json:"row"`
+				Alphabet map[string]symFacts `json:"alphabet"`
+			}
+			if err := json.Unmarshal(raw, &head); err != nil {
+				util.Die("bad row: %v", err)
+			}
+			switch {
+			case head.Alphabet != nil:
+				if gAlpha == nil {
+					gAlpha = head.Alphabet
+					validateAlphabet(gAlpha)
+				}
+			case head.Row == "group":
+				var g eGroup
+				if err := json.Unmarshal(raw, &g); err != nil {
+					util.Die("bad group row: %v", err)
+				}
+				groups[g.G] = &g
+			case head.Row == "pair":
+				var p pairRow
+				if err := json.Unmarshal(raw, &p); err != nil {
+					util.Die("bad pair row: %v", err)
+				}
+				pairs = append(pairs, p)
+			case head.Row == "key":
+				var k struct {
+					P    int    `json:"p"`
+					G    int    `json:"g"`
+					I    int    `json:"i"`
+					Same []bool `json:"same"`
+				}
+				if err := json.Unmarshal(raw, &k); err != nil {
+					util.Die("bad key row: %v", err)
+				}
+				keyRows[k.P] = hk{g: k.G, i: k.I, same: k.Same}
+			case head.Row == "hist":
+				var h hist
+				if err := json.Unmarshal(raw, &h); err != nil {
+					util.Die("bad hist row: %v", err)
+				}
+				hists = append(hists, h)
+			}
+		})
+		if err != nil {
+			util.Die("reading %s: %v", a, err)
+		}
+	}
+	if gAlpha == nil {
+		util.Die("no alphabet row in the table")
+	}
+	for _, g := range groups {
+		n := len(g.Reps)
+		g.eq = make([][]bool, n)
+		g.cmp = make([][]int, n)
+	}
+	for _, p := range pairs {
+		g := groups[p.G]
+		if g == nil || p.I < 1 || p.I > len(g.Reps) || len(p.Eq) != len(g.Reps) {
+			util.Die("pair row (%d, %d) does not fit its group", p.G, p.I)
+		}
+		g.eq[p.I-1] = p.Eq
+		g.cmp[p.I-1] = p.Cmp
+	}
+	nreps, npairs := 0, 0
+	var gl []*eGroup
+	for i := 1; i <= len(groups); i++ {
+		g := groups[i]
+		if g == nil {
+			util.Die("group %d missing from the table", i)
+		}
+		for j := range g.Reps {
+			if g.eq[j] == nil || (g.Comparable && len(g.cmp[j]) != len(g.Reps)) {
+				util.Die("group %d: pair row %d missing", i, j+1)
+			}
+		}
+		nreps += len(g.Reps)
+		npairs += len(g.Reps) * len(g.Reps)
+		gl = append(gl, g)
+	}
+	keys := make([]hk, len(keyRows))
+	for p := 1; p <= len(keyRows); p++ {
+		k, ok := keyRows[p]
+		if !ok || len(k.same) != len(keyRows) {
+			util.Die("key row %d missing or of the wrong size", p)
+		}
+		keys[p-1] = k
+	}
+	// pools of the histories
+	pools := map[int][]rep{}
+	byPool := map[int][]hist{}
+	for _, h := range hists {
+		if len(h.Keys) > 0 {
+			pools[h.Pool] = h.Keys
+		}
+		byPool[h.Pool] = append(byPool[h.Pool], h)
+	}
+	type job func()
+	var jobs []job
+	for _, vm := range []bool{false, true} {
+		vm := vm
+		for _, g := range gl {
+			g := g
+			jobs = append(jobs, func() { checkGroup(g, vm) })
+		}
+		jobs = append(jobs, func() { checkAllKeys(groups, keys, vm) })
+		for q, hs := range byPool {
+			q, hs := q, hs
+			if pools[q] == nil {
+				util.Die("pool %d has no key list", q)
+			}
+			jobs = append(jobs, func() { checkHistories(pools[q], hs, vm) })
+		}
+	}
+	util.Parallel(len(jobs), workers, func(i int) { jobs[i]() })
+
+	// coverage figures
+	classes := 0 // distinct values (equivalence classes of the model) over all groups
+	eqpairs := 0 // pairs of DIFFERENT reps that are equal
+	for _, g := range gl {
+		n := len(g.Reps)
+		for i := 0; i < n; i++ {
+			first := true
+			for j := 0; j < n; j++ {
+				if g.eq[i][j] && j < i {
+					first = false
+				}
+				if g.eq[i][j] && i != j {
+					eqpairs++
+				}
+			}
+			if first {
+				classes++
+			}
+		}
+	}
+	samekeys := 0
+	for p := range keys {
+		for q := range keys {
+			if p != q && keys[p].same[q] {
+				samekeys++
+			}
+		}
+	}
+	eOut.Write(map[string]any{"summary": true, "groups": len(gl), "reps": nreps, "pairs": npairs, "distinct_values": classes,
+		"equal_pairs_of_different_reps": eqpairs, "hashable_reps": len(keys), "key_pairs": len(keys) * len(keys), "equal_key_pairs_of_different_reps": samekeys,
+		"histories": len(hists), "pools": len(pools), "evals": atomic.LoadInt64(&eEvals), "engines": 2, "failures": atomic.LoadInt64(&eNFails)})
+}
